@@ -157,15 +157,6 @@ Fixpoint spec_ids_from (h : shead) (idx : nat) (next : Z) (ms : list mhead) : li
   end.
 
 (* known-finding classes, as conditions on the declaration *)
-Definition kn_explicit_id_ignored (t : ty) : bool :=     (* class 1 *)
-  match t with
-  | TStruct h ms =>
-      match s_ext h with
-      | Mutable => false
-      | _ => existsb (fun m => negb (m_hashid (fst m)) && match m_id (fst m) with Some _ => true | None => false end) ms
-      end
-  | _ => false
-  end.
 Definition kn_enum (t : ty) : bool :=                     (* class 4 *)
   match t with TEnum e => negb (Nat.eqb (length (e_variants e)) 0) | _ => false end.
 
@@ -195,11 +186,21 @@ Definition bad_union_here (t : ty) : bool :=
 Definition kn_dup_ids (t : ty) : bool := any_ty dup_ids_here t.       (* class 3 *)
 Definition kn_bad_union (t : ty) : bool := any_ty bad_union_here t.   (* class 5 *)
 
-(* class 6: a non_serialized member of a FINAL/APPENDABLE structure (or a mutable
-   one without `optional`) stays in the published member list as an ordinary member *)
+(* regression for the fixed class 6 (0840b55: a non_serialized member used to be published and
+   such a Final/Appendable type could not be serialized at all): a Final/Appendable structure
+   of plain primitive / String members, some of them non_serialized, must be accepted by the
+   XCDR1 and XCDR2 serializers.  (Other declarations are not judged: the serializer has limits
+   of its own, e.g. member ids beyond the short XCDR1 parameter header, which belong to C09.) *)
 Definition ns_here (t : ty) : bool :=
   match t with TStruct _ ms => existsb (fun m => m_ns (fst m)) ms | _ => false end.
-Definition kn_ns (t : ty) : bool := any_ty ns_here t.
+Definition ser_judged (t : ty) : bool :=
+  match t with
+  | TStruct h ms =>
+      ns_here t && match s_ext h with Mutable => false | _ => true end &&
+      forallb (fun m => negb (m_optional (fst m)) &&
+                        match snd m with TPrim _ | TString => true | _ => false end) ms
+  | _ => false
+  end.
 
 Fixpoint labels_ok (ls : list (list Z)) (hs : list vhead) : bool :=
   match ls, hs with
@@ -220,13 +221,6 @@ Fixpoint spec_sig (t : ty) : tsig :=
   | TEnum e => Sig K_ENUM (tname (e_rname e) (e_cname e)) [] None
   | TUnion h _ => Sig K_UNION (tname (u_rname h) (u_cname h)) [] None
   end.
-(* the entries of xs that belong to members which are not non_serialized *)
-Fixpoint published {A} (hs : list mhead) (xs : list A) : list A :=
-  match hs, xs with
-  | m :: hs', x :: xs' => if m_ns m then published hs' xs' else x :: published hs' xs'
-  | _, _ => []
-  end.
-
 Definition cls (b : bool) (k : N) : N := if b then k else 0%N.
 
 (* every check: (holds on the implementation's output, class that explains a failure) *)
@@ -240,19 +234,16 @@ Definition C40_checks (c : C40_case) : list (bool * N) :=
       (* a non_serialized member is not part of the published (serialized) type:
          MemberDescriptor has no flag for it, the only way to reflect it is to omit it *)
       let pub := fun A (xs : list A) => published hs xs in
-      let k6 := fun (k : N) => if ns_here t then 6%N else k in
       [ ((td_kind d =? K_STRUCTURE) && String.eqb (td_name d) (tname (s_rname h) (s_cname h)) &&
          ext_eqb (td_ext d) (s_ext h) && Bool.eqb (td_nested d) (s_nested h), 0%N);
-        (list_eqb String.eqb (map md_name ms) (pub _ (names_from h 0 hs)), k6 0%N);        (* names, order *)
-        (list_eqb Z.eqb (map md_index ms) (map Z.of_nat (seq 0 (length (pub _ hs)))), k6 0%N);
-        (list_eqb Bool.eqb (map md_key ms) (pub _ (map m_key hs)), k6 0%N);
-        (list_eqb Bool.eqb (map md_optional ms) (pub _ (map m_optional hs)), k6 0%N);
-        (list_eqb Bool.eqb (map md_must_understand ms) (pub _ (map m_key hs)), k6 0%N);
-        (list_eqb tck_eqb (map md_tc ms) (pub _ (map (fun m => tc_of (m_tc m)) hs)), k6 0%N);
-        (list_eqb tsig_eqb (map md_type ms) (pub _ (map (fun m => spec_sig (snd m)) dm)),  (* member types *)
-         k6 0%N);
-        (list_eqb Z.eqb (map md_id ms) (pub _ (spec_ids_from h 0 0 hs)),                    (* ids *)
-         k6 (cls (kn_explicit_id_ignored t) 1));
+        (list_eqb String.eqb (map md_name ms) (pub _ (names_from h 0 hs)), 0%N);        (* names, order *)
+        (list_eqb Z.eqb (map md_index ms) (map Z.of_nat (seq 0 (length (pub _ hs)))), 0%N);
+        (list_eqb Bool.eqb (map md_key ms) (pub _ (map m_key hs)), 0%N);
+        (list_eqb Bool.eqb (map md_optional ms) (pub _ (map m_optional hs)), 0%N);
+        (list_eqb Bool.eqb (map md_must_understand ms) (pub _ (map m_key hs)), 0%N);
+        (list_eqb tck_eqb (map md_tc ms) (pub _ (map (fun m => tc_of (m_tc m)) hs)), 0%N);
+        (list_eqb tsig_eqb (map md_type ms) (pub _ (map (fun m => spec_sig (snd m)) dm)), 0%N);  (* member types *)
+        (list_eqb Z.eqb (map md_id ms) (pub _ (spec_ids_from h 0 0 hs)), 0%N);             (* ids *)
         (nodupb (map md_id ms), cls (dup_ids_here t) 3) ]                                   (* ids distinct *)
   | TEnum e =>
       [ ((td_kind d =? K_ENUM) && String.eqb (td_name d) (tname (e_rname e) (e_cname e)) &&
@@ -294,7 +285,7 @@ Definition C40_checks (c : C40_case) : list (bool * N) :=
           if kn_dup_ids t then 3%N else cls (kn_bad_union t) 5)) (c_rts c)
   ++
   (* a non_serialized member does not stand in the way of serializing a value *)
-  map (fun r => (match rt_dyn r with Ok _ => negb (kn_ns t) || rt_ser r | _ => true end, cls (kn_ns t) 6)) (c_rts c).
+  map (fun r => (match rt_dyn r with Ok _ => negb (ser_judged t) || rt_ser r | _ => true end, cls (kn_dup_ids t) 3)) (c_rts c).
 
 Definition C40_oracle_ok (c : C40_case) : bool := forallb fst (C40_checks c).
 
